@@ -16,6 +16,29 @@ use super::{DataItem, OperationType, UnaryType};
 use crate::formatter::format_number;
 use crate::tools::do_divition;
 
+/* Prints every digit of a non-negative integral number in base 2, 8 or 16 (no 32 bit saturation) */
+fn format_radix(number: f64, radix: u32, prefix: &str) -> String {
+    let mut digits = alloc::vec::Vec::new();
+    let mut number = number.trunc();
+    if !number.is_finite() {
+        number = 0.0;
+    }
+
+    while number >= 1.0 {
+        let digit = (number % radix as f64) as u32;
+        digits.push(core::char::from_digit(digit, radix).unwrap_or('0').to_ascii_uppercase());
+        number = (number / radix as f64).trunc();
+    }
+
+    if digits.is_empty() {
+        digits.push('0');
+    }
+
+    let mut buffer = String::from(prefix);
+    buffer.extend(digits.iter().rev());
+    buffer
+}
+
 #[derive(Debug)]
 
 pub struct NumberItem(pub f64, pub NumberType);
@@ -62,10 +85,10 @@ impl DataItem for NumberItem {
     fn print(&self, config: &SmartCalcConfig, _: &Session) -> String {
         match self.1 {
             NumberType::Decimal     => format_number(self.0, config.thousand_separator.to_string(), config.decimal_seperator.to_string(), config.number_config.decimal_digits, config.number_config.remove_fract_if_zero, config.number_config.use_fract_rounding),
-            NumberType::Binary      => format!("{:#b}", self.0 as i32),
-            NumberType::Octal       => format!("{:#o}", self.0 as i32),
-            NumberType::Hexadecimal => format!("{:#X}", self.0 as i32),
-            NumberType::Raw         => format!("{}", self.0 as i32)
+            NumberType::Binary      => if self.0 >= 0.0 { format_radix(self.0, 2, "0b") } else { format!("{:#b}", self.0 as i32) },
+            NumberType::Octal       => if self.0 >= 0.0 { format_radix(self.0, 8, "0o") } else { format!("{:#o}", self.0 as i32) },
+            NumberType::Hexadecimal => if self.0 >= 0.0 { format_radix(self.0, 16, "0x") } else { format!("{:#X}", self.0 as i32) },
+            NumberType::Raw         => format!("{}", self.0 as i64)
         }
     }
     fn unary(&self, unary: UnaryType) -> Rc<dyn DataItem> {
